@@ -81,6 +81,9 @@ def failure_scenarios():
     sc.append(('no ike proposal', dict(opts_by_ep={'A': {'ike_encr': ['aes128']}, 'B': {'ike_encr': ['aes256']}})))
     sc.append(('no child proposal', dict(opts_by_ep={'A': {'child_integ': ['sha1']}, 'B': {'child_integ': ['sha512']}})))
     sc.append(('ts unacceptable', dict(opts_by_ep={'A': {'mode': 'tunnel'}, 'B': {'mode': 'transport'}})))
+    sc.append(('ts subnet mismatch', dict(opts_by_ep={'A': {'mode': 'tunnel', 'my_subnet': '10.5.1.0/24', 'peer_subnet': '10.5.2.0/24'}, 'B': {'mode': 'tunnel', 'my_subnet': '10.6.2.0/24', 'peer_subnet': '10.6.1.0/24'}})))
+    sc.append(('ts port mismatch', dict(opts_by_ep={'A': {'peer_port': 80}, 'B': {'my_port': 443}})))
+    sc.append(('ts protocol mismatch', dict(opts_by_ep={'A': {'ip_proto': 'tcp'}, 'B': {'ip_proto': 'udp'}})))
     sc.append(('invalid ke', dict(opts_by_ep={'A': {'ike_dh': ['ecp256', 'ecp384'], 'child_dh': ['ecp256', 'ecp384']}, 'B': {'ike_dh': ['ecp384', 'ecp256'], 'child_dh': ['ecp384', 'ecp256']}})))
     sc.append(('kernel refusal', dict(refuse=True)))
     sc.append(('plain', dict()))
